@@ -826,3 +826,33 @@ func resolveFlag(cond ssa.Value, path []*ssa.BasicBlock) (base ssa.Value, negate
 	}
 	return nil, false, false
 }
+
+// c01TagLookup (R01.h): TagFromString looks the tag up exactly as it was written: the key of every lookup in the table
+// of known tags is the parameter itself. A folded or trimmed key turns a line's tag into a different (registered) tag,
+// so the node no longer carries the tag of its line and the text written back differs.
+func c01TagLookup(p *load.Prog, r *oblig.Run) {
+	r.Rule("R01.h", "TagFromString looks a tag up under exactly the text it was given", 1)
+	fn := p.Func(load.PkgRoot, "TagFromString")
+	if fn == nil || len(fn.Params) != 1 {
+		r.Add("R01.h", "anchor", "-", "anchor").Unknown("TagFromString(tag) not found")
+		return
+	}
+	n := 0
+	for _, b := range fn.Blocks {
+		for _, ins := range b.Instrs {
+			lk, ok := ins.(*ssa.Lookup)
+			if !ok {
+				continue
+			}
+			if _, isMap := lk.X.Type().Underlying().(*types.Map); !isMap {
+				continue
+			}
+			n++
+			r.Check("R01.h", fmt.Sprintf("lookup %d in TagFromString", n), p.Pos(lk.Pos()), "key of the known-tag lookup", lk.Index == ssa.Value(fn.Params[0]),
+				"the parameter itself", "TagFromString looks the tag up under a key computed from the text ("+lk.Index.String()+") instead of the text itself: a line whose tag differs from a registered tag only by that computation (letter case, spaces) is decoded as the registered tag - the node's tag is not the tag of its line, its kind changes, and re-encoding writes different bytes")
+		}
+	}
+	if n == 0 {
+		r.Add("R01.h", "lookups in TagFromString", p.Pos(fn.Pos()), "lookups").Unknown("TagFromString no longer looks the tag up in a map")
+	}
+}
